@@ -9,11 +9,13 @@ moment of the call, or not-found / the transient stale-extent error while the ke
 rewritten) and PinTrace.tla (no device write to blocks a pinned reader reads lies inside its pin)."""
 import json
 import os
+import re
 import random
 
 import vcommon as v
 import concengine as ce
 from checks.c07 import collect
+from crashengine import mc_model as ce_mc
 
 PROP = "C08"
 E9 = ce.E9
@@ -107,6 +109,22 @@ def run(tier, seed):
     rng = random.Random(seed)
     viol = []
     st = {"traces": 0, "states": 0, "transitions": 0, "schedules": 0, "stalls": 0, "events": 0}
+    # ---- design level: the pin / retirement / reuse protocol (Pin.tla over PinProto.tla), exhaustive
+    mc = ce_mc(rd, "Pin", "MCPin_quick.cfg" if tier == "quick" else "MCPin.cfg", workers=4 if tier == "quick" else 8)
+    if mc.violation:
+        viol.append({"what": "model: " + mc.violation, "replay": v.save_replay("c08", "mc_pin.out", mc.out[-6000:]), "key": "mc"})
+    # the orderings the protocol rests on: each mutation of the model must be found
+    muts = ["BitBeforeCheck"] if tier == "quick" else ["BitBeforeCheck", "AcquireRefusesRetired", "NoDefence"]
+    for m in muts:
+        ce_mc(rd, "Pin", "MCPin_mut_%s.cfg" % m, workers=2, expect_violation=True, timeout=600)
+    if tier != "quick":
+        live = v.run_tlc("Pin", "MCPin_live.cfg", rd, workers=4, timeout=1800, coverage=False, xmx="8g")
+        v.tlc_ok(live, "Pin(live)")
+        if live.violation:
+            viol.append({"what": "model: liveness " + live.violation, "replay": v.save_replay("c08", "mc_pin_live.out", live.out[-6000:]), "key": "mc live"})
+        st["states"] += live.distinct
+    st["states"] += mc.distinct
+    st["transitions"] += mc.generated
     fam = family()
     if tier == "quick":
         rng.shuffle(fam)
@@ -166,8 +184,14 @@ def run(tier, seed):
         st["transitions"] += r.generated
         if r.violation and r.violation.startswith("invariant"):
             keep = v.save_replay("c08", os.path.basename(pf), open(pf).read())
-            viol.append({"what": "device blocks overwritten while a reader held them pinned (%s)" % os.path.basename(pf),
-                         "replay": keep, "key": "pin overwrite"})
+            if "RetireProtocol" in r.violation:
+                m = re.findall(r'pflags = (\{[^}]*\})', r.out)
+                viol.append({"what": "retirement decided to overwrite or reuse an extent a reader still holds: %s %s (%s)"
+                                     % (r.violation, m[-1] if m else "", os.path.basename(pf)),
+                             "replay": keep, "key": "pin protocol %s" % (m[-1] if m else "")})
+            else:
+                viol.append({"what": "device blocks overwritten while a reader held them pinned (%s)" % os.path.basename(pf),
+                             "replay": keep, "key": "pin overwrite"})
         elif r.violation:
             raise v.ToolError("PinTrace: " + r.out[-400:])
         else:
